@@ -6,6 +6,8 @@ import (
 	"go.pennock.tech/tabular"
 )
 
+type c02ProbeKey struct{}
+
 func sameItem(a, b interface{}) (eq bool) {
 	defer func() {
 		if recover() != nil {
@@ -108,8 +110,18 @@ func (w *World) CheckC02(op string) *Violation {
 			if !sameItem(ptr.Item(), mc.item) {
 				return v("cellat-identity", "CellAt(%d,%d) holds %v, want the item %v", r, c, ptr.Item(), mc.item)
 			}
-			if ptr != &all[r-1].Cells()[c-1] {
-				return v("cellat-not-live", "CellAt(%d,%d) is not the cell stored in AllRows()[%d].Cells()[%d]", r, c, r-1, c-1)
+			// the lookup hands out the cell itself: a second lookup gives the same
+			// object, and what is written through it is seen through the row
+			if again, _ := t.CellAt(loc); again != ptr {
+				return v("cellat-not-live", "two consecutive CellAt(%d,%d) calls returned different objects", r, c)
+			}
+			w.liveProbe++
+			ptr.SetProperty(c02ProbeKey{}, w.liveProbe)
+			if got := all[r-1].Cells()[c-1].GetProperty(c02ProbeKey{}); got != w.liveProbe {
+				return v("cellat-not-live", "a property set through CellAt(%d,%d) is not visible in AllRows()[%d].Cells()[%d] (reads %v)", r, c, r-1, c-1, got)
+			}
+			if !sameItem(all[r-1].Cells()[c-1].Item(), mc.item) {
+				return v("row-cells-item", "AllRows()[%d].Cells()[%d] holds %v, want the item %v", r-1, c-1, all[r-1].Cells()[c-1].Item(), mc.item)
 			}
 			if got := ptr.Location(); got != loc {
 				return v("cell-location", "cell at (%d,%d) reports Location %+v", r, c, got)
